@@ -39,8 +39,8 @@ type Cfg struct {
 	// Pure: expression operands are side-effect free (no calls of user functions, no statements in
 	// value blocks, no throwing try-expressions, no pop); effects happen at statement level only.
 	Pure bool
-	// SmallNums: numeric literals stay far from overflow / rounding boundaries; both operands of
-	// an integer multiplication are small non-negative literals.
+	// SmallNums: numeric literals stay far from overflow / rounding boundaries; the right operand of
+	// an integer multiplication is a small non-negative literal (the left one is any pure integer expression).
 	SmallNums bool
 
 	// CalmTry: no try statement that diverges on every path (used where the check depends on static types)
@@ -471,7 +471,11 @@ func (g *G) intExpr(d int) hs.Expr {
 		if g.c.SmallNums {
 			switch op {
 			case "*":
-				l, r = g.smallInt(0, 12), g.smallInt(0, 12)
+				// the class asks for a small non-negative RIGHT operand; the left one is any (pure) integer
+				r = g.smallInt(0, 12)
+				if !g.chance("mulLeftExpr", 40) {
+					l = g.smallInt(-12, 12)
+				}
 			case "**":
 				l, r = g.smallInt(0, 6), g.smallInt(0, 5)
 			case "<<", ">>":
